@@ -161,7 +161,7 @@ def showRec (id : Nat) (r : NRec Float) : String :=
   let tl := match r.table with
     | none => "N"
     | some t => toString t.length
-  s!"{id} {showO r.b_c} {showO r.bp} {showO r.bm} {showO r.coherent} {showO r.incoherent} {showO r.total} {showO r.absorption} {showO r.abundance} {if r.isE then 1 else 0} {bcc} {showO r.b_c_i} {showO r.bp_i} {showO r.bm_i} {if r.hasSld then 1 else 0} {tl}"
+  s!"{id} {showO r.b_c} {showO r.bp} {showO r.bm} {showO r.coherent} {showO r.incoherent} {showO r.total} {showO r.absorption} {showO r.abundance} {if r.isE then 1 else 0} {bcc} {showO r.b_c_i} {showO r.bp_i} {showO r.bm_i} {if r.hasSld then 1 else 0} {tl} {showO r.nd}"
 
 def hexOfStr (s : String) : String :=
   if s.isEmpty then "-" else
